@@ -45,8 +45,8 @@ def prolog_en_ref(d, tokens):
     def rec(x):
         if x[0] == 'L':
             tk = next(it)
-            return ('L', D.prolog_en_cat(x[1]), tk['word'], (('lemma', tk['lemma']), ('pos', tk['pos']),
-                                                             ('chunk', tk['chunk']), ('entity', tk['entity'])))
+            return ('L', D.prolog_en_cat(x[1]), tk['word'], (('lemma', tk.get('lemma', 'XX')), ('pos', tk.get('pos', 'XX')),
+                                                             ('chunk', tk.get('chunk', 'XX')), ('entity', tk.get('entity', 'XX'))))
         if x[0] == 'U':
             return ('T', D.prolog_en_cat(x[1]), 'lx', None, (rec(x[2]),), ('childcat', D.prolog_en_cat(x[2][1])))
         lab = x[4]
@@ -241,7 +241,7 @@ def check_case(case, info=None):
             if not carriable(fmt, system, words, all_tokens):
                 skipped.append(fmt)
                 continue
-            batch = [[ScoredTree(gen_tree.tree_of_case(tc), -0.5 * (k + 1)) for k, tc in enumerate(sent)]
+            batch = [[ScoredTree(tr, -0.5 * (k + 1)) for k, tr in enumerate(gen_tree.sentence_trees(sent))]
                      for sent in case['batch']]
             try:
                 if fmt == 'json_full':
@@ -317,7 +317,8 @@ def build_case(data):
     batch = []
     for _ in range(nsent):
         nb = t.weighted([(4, 1), (2, 2), (1, 3)])
-        first = gen_tree.t_tree_case(t, system, max_leaves=5, tok_exclude=excl, ja_tokens=(system == 'ja'))
+        first = gen_tree.t_tree_case(t, system, max_leaves=5, tok_exclude=excl, ja_tokens=(system == 'ja'),
+                                      variants=True)
         _prolog_safe(first)
         sent = [first]
         n = len(first['tokens'])
